@@ -285,6 +285,8 @@ def compare_model(job, ob, ans):
 
 def run(ctx):
     rng = ctx.rng
+    ctx.notes.append("tsample_cover is stated for requests that have a step at or after them: a Gillespie run that exhausts its events "
+                     "(a0 == 0) before a requested time <= t_max leaves it uncovered (counted as gillespie_exhausted_before_request)")
     n = ctx.n(150, 5000)
     jobs = []
     for i in range(n):
@@ -297,7 +299,7 @@ def run(ctx):
         policy = lc.POLICIES[(i // 3) % 4]
         max_steps = 120 if option != "gillespie" else 40
         jobs.append(make_job(rng, "s%d" % i, option, policy=policy, max_steps=max_steps, **kw))
-    res = lc.run_jobs(jobs, kind="plain", chunk=ctx.n(10, 60), parallel=ctx.n(6, 8))
+    res = lc.run_jobs(jobs, kind="plain", chunk=ctx.n(10, 60), parallel=ctx.n(6, 8), stall=ctx.n(15, 40))
     ops, metas = [], []
     for job in jobs:
         r = res[job["id"]]
